@@ -539,6 +539,23 @@ theorem seq_get_returns_set_value (g d : Bool) (p : Policy) (pre : List Seq.Op) 
       obtain ⟨sz, kn, hm⟩ := hstore q hmem
       exact ⟨sz, kn, by simpa [hk] using hm⟩
 
+/-- **failed_set_stores_nothing.** A Set whose reader fails (after any number of bytes) leaves no value under
+the key — neither the prefix it managed to read nor the previous value: the next Get misses. -/
+theorem failed_set_stores_nothing (g d : Bool) (s : Seq.St) (k : Key) (sz : Nat) (known : Bool)
+    (hp : s.poisoned = false) (hnp : (Seq.step g d s (.setFail k sz known)).2 ≠ .panic) :
+    Seq.lookup (Seq.step g d s (.setFail k sz known)).1.store k = none := by
+  have herase : ∀ st : List (Key × Nat), Seq.lookup (Seq.erase st k) k = none := by
+    intro st; simp only [Seq.lookup, Seq.erase]; rw [find_filter_self]; rfl
+  unfold Seq.step at hnp ⊢
+  simp only [hp, Bool.false_eq_true, if_false] at hnp ⊢
+  cases known with
+  | false => simp only [Bool.false_eq_true, if_false]; exact herase _
+  | true =>
+    simp only [if_true] at hnp ⊢
+    cases hts : s.pol.trackSet g d k sz with
+    | none => simp [hts] at hnp
+    | some r => simp only [hts]; exact herase _
+
 /-! ## §C GenericCache + persistor: all interleavings of the atomic steps -/
 namespace Conc
 open Pithos.Cache.Conc
@@ -771,7 +788,7 @@ structure Inv (s : St) : Prop where
   ret   : ∀ id v, (id, some v) ∈ s.returned → (id, v) ∈ s.puts
 
 def TInv (puts : List (Nat × Nat)) : Thread → Prop
-  | .get id _ sn => ∀ v, sn = some v → (id, v) ∈ puts
+  | .get id _ _ sn => ∀ v, sn = some v → (id, v) ∈ puts
   | .put id v pc => 1 ≤ pc → (id, v) ∈ puts
   | _ => True
 
@@ -782,7 +799,7 @@ theorem stepThread_threads (s : St) (t : Thread) : (stepThread s t).1.threads = 
     | 0 => rfl
     | 1 => rfl
     | _ + 2 => rfl
-  | get id pc sn => cases pc <;> simp only [stepThread] <;> (repeat' split) <;> rfl
+  | get id fl pc sn => cases pc <;> simp only [stepThread] <;> (repeat' split) <;> rfl
   | delete id pc =>
     match pc with
     | 0 => rfl
@@ -813,7 +830,7 @@ theorem stepThread_inv (s : St) (t : Thread) (hs : Inv s) (ht : TInv s.puts t) :
       · rw [h0]; exact ht (Nat.le_refl 1)
       · exact hc p h0
     | n + 2 => exact ⟨same, ht, fun p hp => hp⟩
-  | get id pc sn =>
+  | get id fl pc sn =>
     cases pc with
     | lookup =>
       simp only [stepThread]
@@ -846,16 +863,19 @@ theorem stepThread_inv (s : St) (t : Thread) (hs : Inv s) (ht : TInv s.puts t) :
         simp only [stepThread]
         exact ⟨same, (fun v hv => by cases hv), fun p hp => hp⟩
       | some v =>
-        refine ⟨⟨hi, ?_, ?_⟩, ht, fun p hp => hp⟩
-        · intro p hp
-          rcases mem_insert _ _ _ _ hp with h0 | h0
-          · rw [h0]; exact ht v rfl
-          · exact hc p h0
-        · intro id' v' hp
-          simp only [stepThread, List.mem_cons, Prod.mk.injEq, Option.some.injEq] at hp
-          rcases hp with ⟨rfl, rfl⟩ | hp
-          · exact ht v' rfl
-          · exact hr id' v' hp
+        cases fl with
+        | true => exact ⟨same, ht, fun p hp => hp⟩
+        | false =>
+          refine ⟨⟨hi, ?_, ?_⟩, ht, fun p hp => hp⟩
+          · intro p hp
+            rcases mem_insert _ _ _ _ hp with h0 | h0
+            · rw [h0]; exact ht v rfl
+            · exact hc p h0
+          · intro id' v' hp
+            simp only [stepThread, Bool.false_eq_true, if_false, List.mem_cons, Prod.mk.injEq, Option.some.injEq] at hp
+            rcases hp with ⟨rfl, rfl⟩ | hp
+            · exact ht v' rfl
+            · exact hr id' v' hp
     | done => exact ⟨same, ht, fun p hp => hp⟩
   | delete id pc =>
     match pc with
@@ -869,7 +889,7 @@ def GInv (s : St) : Prop := Inv s ∧ ∀ t ∈ s.threads, TInv s.puts t
 theorem tinv_mono {puts puts' : List (Nat × Nat)} (h : ∀ p ∈ puts, p ∈ puts') (t : Thread) (ht : TInv puts t) :
     TInv puts' t := by
   cases t with
-  | get id pc sn => exact fun v hv => h _ (ht v hv)
+  | get id fl pc sn => exact fun v hv => h _ (ht v hv)
   | put id v pc => exact fun hpc => h _ (ht hpc)
   | delete => trivial
 
@@ -897,18 +917,18 @@ theorem run_ginv (s : St) (sched : List Nat) (h : GInv s) : GInv (run s sched) :
 /-- A call that has not started yet. -/
 def fresh : Thread → Prop
   | .put _ _ pc => pc = 0
-  | .get _ pc sn => pc = .lookup ∧ sn = none
+  | .get _ _ pc sn => pc = .lookup ∧ sn = none
   | .delete _ pc => pc = 0
 
 theorem tinv_fresh (puts : List (Nat × Nat)) (t : Thread) (h : fresh t) : TInv puts t := by
   cases t with
   | put id v pc => simp only [fresh] at h; subst h; intro h0; omega
-  | get id pc sn => simp only [fresh] at h; obtain ⟨_, h2⟩ := h; subst h2; intro v hv; cases hv
+  | get id fl pc sn => simp only [fresh] at h; obtain ⟨_, h2⟩ := h; subst h2; intro v hv; cases hv
   | delete => trivial
 
 /-- **getpart_returns_only_put_bytes.** For any number of PutPart/GetPart/DeletePart calls on any ids and EVERY
-interleaving of their steps (inner store, cache entry, after-commit hook, late fill): whatever bytes a
-GetPart returns for an id were written by some PutPart under that very id — never a foreign or invented value. -/
+interleaving of their steps (inner store, cache entry, after-commit hook, late fill, fills that FAIL because
+the inner reader broke mid-stream or the caller closed early): whatever bytes a GetPart returns for an id were written by some PutPart under that very id — never a foreign or invented value. -/
 theorem getpart_returns_only_put_bytes (ts : List Thread) (hts : ∀ t ∈ ts, fresh t) (sched : List Nat) :
     ∀ id v, (id, some v) ∈ (run (init ts) sched).returned → (id, v) ∈ (run (init ts) sched).puts := by
   have h0 : GInv (init ts) := by
@@ -921,29 +941,44 @@ theorem getpart_returns_only_put_bytes (ts : List Thread) (hts : ∀ t ∈ ts, f
 
 /-! ### calls that do not overlap -/
 
-/-- The part store without a cache: what each GetPart of a sequential history must answer. -/
+/-- Cache coherence between calls. -/
+def Coh (s : St) : Prop := ∀ id v, lookup s.cache id = some v → lookup s.inner id = some v
+
+/-- Does this GetPart end in an error? Only when it has to stream from the inner store (cache miss, the part
+exists) and that stream breaks before EOF (`fl`). -/
+def getFails (s : St) (id : Nat) (fl : Bool) : Bool :=
+  fl && (lookup s.cache id).isNone && (lookup s.inner id).isSome
+
+/-- What a sequential history must answer: every GetPart that answers at all answers what the inner store
+holds under the id at that moment. -/
+def spec : St → List Thread → List (Nat × Option Nat)
+  | _, [] => []
+  | s, t :: ts =>
+    (match t with
+     | .get id fl _ _ => if getFails s id fl then [] else [(id, lookup s.inner id)]
+     | _ => []) ++ spec (runToEnd s t) ts
+
+/-- The part store without a cache and without faults. -/
 def ref : List (Nat × Nat) → List Thread → List (Nat × Option Nat)
   | _, [] => []
   | inner, .put id v _ :: ts => ref (Cache.Part.insert inner id v) ts
-  | inner, .get id _ _ :: ts => (id, lookup inner id) :: ref inner ts
+  | inner, .get id _ _ _ :: ts => (id, lookup inner id) :: ref inner ts
   | inner, .delete id _ :: ts => ref (erase inner id) ts
-
-/-- Cache coherence between calls. -/
-def Coh (s : St) : Prop := ∀ id v, lookup s.cache id = some v → lookup s.inner id = some v
 
 theorem runToEnd_fresh (s : St) (t : Thread) (hc : Coh s) (hf : fresh t) :
     Coh (runToEnd s t) ∧
     (runToEnd s t).inner = (match t with
       | .put id v _ => Cache.Part.insert s.inner id v
-      | .get _ _ _ => s.inner
+      | .get _ _ _ _ => s.inner
       | .delete id _ => erase s.inner id) ∧
     (runToEnd s t).returned = (match t with
-      | .get id _ _ => (id, lookup s.inner id) :: s.returned
-      | _ => s.returned) := by
+      | .get id fl _ _ => if getFails s id fl then s.returned else (id, lookup s.inner id) :: s.returned
+      | _ => s.returned) ∧
+    (∀ id fl pc sn, t = .get id fl pc sn → getFails s id fl = true → (runToEnd s t).cache = s.cache) := by
   cases t with
   | put id v pc =>
     simp only [fresh] at hf; subst hf
-    refine ⟨?_, rfl, rfl⟩
+    refine ⟨?_, rfl, rfl, by intro _ _ _ _ h; cases h⟩
     intro id' v' h
     simp only [runToEnd, stepThread] at h ⊢
     rw [lookup_insert] at h ⊢
@@ -952,62 +987,117 @@ theorem runToEnd_fresh (s : St) (t : Thread) (hc : Coh s) (hf : fresh t) :
     · next e => rw [if_neg e]; exact hc id' v' h
   | delete id pc =>
     simp only [fresh] at hf; subst hf
-    refine ⟨?_, rfl, rfl⟩
+    refine ⟨?_, rfl, rfl, by intro _ _ _ _ h; cases h⟩
     intro id' v' h
     simp only [runToEnd, stepThread] at h ⊢
     rw [lookup_erase] at h ⊢
     split at h
     · cases h
     · next e => rw [if_neg e]; exact hc id' v' h
-  | get id pc sn =>
+  | get id fl pc sn =>
     simp only [fresh] at hf; obtain ⟨h1, h2⟩ := hf; subst h1 h2
     cases hl : lookup s.cache id with
     | some v =>
       have hin := hc id v hl
-      simp only [runToEnd, stepThread, hl, hin]
-      exact ⟨hc, trivial, trivial⟩
+      simp only [runToEnd, stepThread, hl, hin, getFails]
+      refine ⟨hc, trivial, by simp, ?_⟩
+      intro id' fl' pc' sn' he hg
+      cases he
+      simp [hl] at hg
     | none =>
       cases hin : lookup s.inner id with
       | none =>
-        simp only [runToEnd, stepThread, hl, hin]
-        exact ⟨hc, trivial, trivial⟩
+        simp only [runToEnd, stepThread, hl, hin, getFails]
+        refine ⟨hc, trivial, by simp, ?_⟩
+        intro id' fl' pc' sn' he hg
+        cases he
+        simp [hin] at hg
       | some v =>
-        simp only [runToEnd, stepThread, hl, hin]
-        refine ⟨?_, trivial, trivial⟩
-        intro id' v' h
-        simp only [] at h ⊢
-        rw [lookup_insert] at h
-        split at h
-        · next e => subst e; rw [hin]; exact h
-        · exact hc id' v' h
+        cases fl with
+        | true =>
+          simp only [runToEnd, stepThread, hl, hin, getFails, if_true]
+          exact ⟨hc, trivial, by simp, fun _ _ _ _ _ _ => trivial⟩
+        | false =>
+          simp only [runToEnd, stepThread, hl, hin, getFails, Bool.false_eq_true, if_false]
+          refine ⟨?_, trivial, by simp, ?_⟩
+          · intro id' v' h
+            simp only [] at h ⊢
+            rw [lookup_insert] at h
+            split at h
+            · next e => subst e; rw [hin]; exact h
+            · exact hc id' v' h
+          · intro id' fl' pc' sn' he hg
+            cases he
+            simp at hg
+
+/-- **failed_fill_caches_nothing.** A GetPart whose source breaks during a cache-miss fill (after any number
+of bytes, also 0 or all but the EOF) leaves the cache exactly as it was and hands no bytes to its caller. -/
+theorem failed_fill_caches_nothing (s : St) (id : Nat) (hc : Coh s) (hf : getFails s id true = true) :
+    (runToEnd s (.get id true .lookup none)).cache = s.cache ∧
+    (runToEnd s (.get id true .lookup none)).returned = s.returned := by
+  obtain ⟨_, _, h3, h4⟩ := runToEnd_fresh s (.get id true .lookup none) hc ⟨rfl, rfl⟩
+  refine ⟨h4 id true .lookup none rfl hf, ?_⟩
+  simpa [hf] using h3
+
+/-- The same step-wise, for every interleaving: the `fill` step of a failing GetPart changes nothing. -/
+theorem failed_fill_step_caches_nothing (s : St) (id : Nat) (sn : Option Nat) :
+    (stepThread s (.get id true .fill sn)).1 = s := by
+  cases sn <;> rfl
 
 /-- **getpart_bytes_or_notfound_partial.** When the calls do not overlap (each finishes before the next
-starts — in particular no DeletePart/PutPart between a read miss and its late cache fill), every GetPart
-answers exactly what the inner store holds under the id at that moment: the bytes stored there, or
-not-found — never stale after a delete or an overwrite. -/
+starts — in particular no DeletePart/PutPart between a read miss and its late cache fill), and whatever
+fills fail on the way, every GetPart that answers at all answers exactly what the inner store holds under
+the id at that moment: the bytes stored there, or not-found — never a partial value, never stale after a
+delete or an overwrite. -/
 theorem getpart_bytes_or_notfound_partial (ts : List Thread) (hts : ∀ t ∈ ts, fresh t) (s : St) (hc : Coh s) :
-    (serial s ts).returned = (ref s.inner ts).reverse ++ s.returned := by
+    (serial s ts).returned = (spec s ts).reverse ++ s.returned := by
   induction ts generalizing s with
-  | nil => simp [serial, ref]
+  | nil => simp [serial, spec]
   | cons t ts ih =>
-    obtain ⟨h1, h2, h3⟩ := runToEnd_fresh s t hc (hts t (by simp))
+    obtain ⟨h1, _, h3, _⟩ := runToEnd_fresh s t hc (hts t (by simp))
     have := ih (fun t' ht' => hts t' (by simp [ht'])) (runToEnd s t) h1
     simp only [serial]
-    rw [this, h2, h3]
-    cases t <;> simp [ref]
+    rw [this, h3]
+    cases t with
+    | get id fl pc sn => simp only [spec]; split <;> simp
+    | put => simp [spec]
+    | delete => simp [spec]
+
+/-- Without faults the answers are those of the part store without any cache. -/
+theorem spec_eq_ref (ts : List Thread) (hts : ∀ t ∈ ts, fresh t)
+    (hnf : ∀ id fl pc sn, Thread.get id fl pc sn ∈ ts → fl = false) (s : St) (hc : Coh s) :
+    spec s ts = ref s.inner ts := by
+  induction ts generalizing s with
+  | nil => rfl
+  | cons t ts ih =>
+    obtain ⟨h1, h2, _, _⟩ := runToEnd_fresh s t hc (hts t (by simp))
+    have := ih (fun t' ht' => hts t' (by simp [ht'])) (fun id fl pc sn hm => hnf id fl pc sn (by simp [hm])) (runToEnd s t) h1
+    cases t with
+    | get id fl pc sn =>
+      have hfl := hnf id fl pc sn (by simp)
+      subst hfl
+      simp only [spec, ref, getFails, Bool.false_and, Bool.false_eq_true, if_false, List.singleton_append]
+      rw [this, h2]
+    | put id v pc => simp only [spec, ref, List.nil_append]; rw [this, h2]
+    | delete id pc => simp only [spec, ref, List.nil_append]; rw [this, h2]
 
 /-- **Witness** (known finding `C19.partstore-late-fill-serves-stale-bytes`; realised on the real cache part
 store by scripted schedule 0): a GetPart that missed is still streaming when a DeletePart of the id
 completes; its late fill puts the deleted bytes back, and a GetPart issued afterwards returns them although
 the inner store has nothing under the id. -/
 theorem late_fill_serves_deleted_part :
-    let s := run { init [.get 0 .lookup none, .delete 0 0, .get 0 .lookup none] with inner := [(0, 7)], puts := [(0, 7)] }
+    let s := run { init [.get 0 false .lookup none, .delete 0 0, .get 0 false .lookup none] with inner := [(0, 7)], puts := [(0, 7)] }
       [0, 0, 1, 1, 0, 2]
     s.inner = [] ∧ s.returned = [(0, some 7), (0, some 7)] := by decide
 
 /-- Non-vacuity of the sequential theorem: the same three calls, not overlapping, answer `7` then not-found. -/
 example : (serial { init [] with inner := [(0, 7)], puts := [(0, 7)] }
-    [.get 0 .lookup none, .delete 0 0, .get 0 .lookup none]).returned = [(0, none), (0, some 7)] := by decide
+    [.get 0 false .lookup none, .delete 0 0, .get 0 false .lookup none]).returned = [(0, none), (0, some 7)] := by decide
+
+/-- Non-vacuity of the fault clauses: a fill that fails (nothing returned, nothing cached), then a healthy read
+of the complete value, then a failing source that no longer matters because the value is cached. -/
+example : (serial { init [] with inner := [(0, 7)], puts := [(0, 7)] }
+    [.get 0 true .lookup none, .get 0 false .lookup none, .get 0 true .lookup none]).returned = [(0, some 7), (0, some 7)] := by decide
 
 end Part
 
